@@ -29,6 +29,25 @@ def run(case) -> CaseResult:
     res.labels.append(P.status)
     for b, m in P.fwd_fails:
         res.fail("C01." + b, m)
+    if P.status == "ok" and not P.fwd_fails:
+        # the forward value does not depend on gradient tracking: same call on plain tensors under torch.no_grad()
+        import torch
+        bu = pb.build(case, case["seedA"])
+        try:
+            y_grad = bu.u(*[t.clone().requires_grad_() for t in bu.ts]).detach()
+            with torch.no_grad():
+                y_plain = bu.u(*[t.clone() for t in bu.ts])
+            y_in = bu.u(*[t.clone() for t in bu.ts])
+            tol_ = pb.tol_for(case)[0]   # (PyTorch itself may pick another kernel when nothing requires grad: rounding-level tolerance)
+
+            def near(a, b):
+                a, b = a.detach().double().nan_to_num(0.0), b.detach().double().nan_to_num(0.0)
+                return bool(((a - b).abs() <= 4 * tol_ * max(1e-300, float(b.abs().max()))).all())
+            if not (y_plain.shape == y_grad.shape and y_plain.dtype == y_grad.dtype and near(y_plain, y_grad) and near(y_in, y_grad)):
+                res.fail(f"C01.fwd.grad-mode-dependent:{op}", "the forward value under torch.no_grad() / for inputs that do not require grad differs from the value with gradient tracking")
+        except Exception as e:  # noqa: BLE001
+            from vlib.runner import exc_bucket
+            res.fail(exc_bucket(f"C01.fwd.raises-without-grad:{op}", e), f"{type(e).__name__}: {e}")
     if P.status == "ok" and P.s_fwd:
         res.nontrivial = P.out_numel >= 2 and pb.nontrivial_config(case)
         if op not in pb.ONE:
